@@ -44,7 +44,7 @@ using namespace photon::rpc;
     X(checksum_mismatch_rejected) X(checked_roundtrip_ok) X(allocator_copies) X(iovec_array_multi_fragment) \
     X(zero_length_fragment) X(fragments_ge8) X(single_fragment) X(edit_field_word) X(edit_resize) X(edit_bitflip) \
     X(edit_random) X(edit_left_bytes_unchanged) X(wire_lengths_exceed_input) X(wellformed_but_rejected) \
-    X(map_slice_outside_base_flagged) X(flagged_oob_confirmed_by_sanitizer) X(flagged_map_library_call_skipped) \
+    X(map_slice_outside_base_flagged) X(map_with_zero_length_key_slice) X(flagged_oob_confirmed_by_sanitizer) X(flagged_oob_not_seen_by_sanitizer) X(flagged_map_library_call_skipped) \
     X(child_deaths) X(checked_altered_accepted_provable) X(checked_altered_accepted_not_provable) X(map_find_calls) X(map_entries_iterated) X(fields_walked) X(bytes_touched) \
     X(generator_iovfull_skipped) X(failpath_null_arith_executed) X(fixed_buffer_wire_length_mismatch_accepted) \
     X(stack_serializer_compared) X(nested_aligned_cases) X(repeat_of_recorded_crash_not_executed) X(timeout_not_reproduced) X(death_not_reproduced_alone) X(known_crash_repeats)
@@ -384,11 +384,18 @@ template <class K, class V> void exercise_map(sorted_map<K, V>& m, MapCtx& c) {
         }
     }
     if (bad) {
-        // let the sanitizer confirm the explicit finding a few times per process, then stop paying a child for it
-        if (shm->flagged_lib_calls >= 2) { bump(CT_flagged_map_library_call_skipped); return; }
+        // Let the sanitizer confirm the explicit finding a few times per process, then stop paying a child for it. Only where
+        // there is a sanitizer: iteration over an out-of-range value slice also *writes* there (deserialize<V> rewrites the
+        // value's pointers in place), which in the plain flavor silently corrupts the heap of this child.
+        if (!vh::is_asan() || shm->flagged_lib_calls >= 2) { bump(CT_flagged_map_library_call_skipped); return; }
         shm->flagged_lib_calls++;
         shm->explicit_flagged = 1;
     }
+    // A key slice of length 0 is inside the base buffer, so nothing above objects. rpc::string::sv() of such a key is
+    // {ptr, size()-1} = {ptr, SIZE_MAX}; what find() then reads is left to ASan, the breadcrumb only names the situation.
+    bool zero_key = false;
+    for (size_t j = 0; j < n && !bad; ++j) if (m.index[j].first.length == 0) zero_key = true;
+    if (zero_key) { bump(CT_map_with_zero_length_key_slice); crumb_kind("sorted_map[zero-length-key]"); }
     crumb("map-iterate");
     size_t i = 0;
     for (auto it = m.begin(); it != m.end(); ++it, ++i) {
@@ -453,6 +460,9 @@ template <class K, class V> void exercise_map(sorted_map<K, V>& m, MapCtx& c) {
                    vh::JObj().kv("probe", probes[q]).raw("input", c.witness).str());
         }
     }
+    // the library has been let loose on slices outside the input and the sanitizer saw nothing (they hit other live memory):
+    // this child's memory can no longer be trusted, the parent goes on with a fresh one
+    if (bad) _exit(77);
 }
 template <class K, class V> void LiveWalker::on_map(sorted_map<K, V>& m) {
     on_buf(K_MAP_INDEX, m.index, sizeof(typename sorted_map<K, V>::ValueType));
@@ -1350,7 +1360,9 @@ int main(int argc, char** argv) {
     shm = (Shm*)mmap(nullptr, sizeof(Shm), PROT_READ | PROT_WRITE, MAP_SHARED | MAP_ANONYMOUS, -1, 0);
     if (shm == MAP_FAILED) vh::machinery_failure("mmap failed");
     memset(shm, 0, sizeof(Shm));
-    const uint64_t xseed = vh::args().xseed();
+    // `salt` lets a second run of the same execution indices (the plain flavor) explore other inputs
+    const uint64_t salt = (uint64_t)vh::args().geti("salt", 0);
+    const uint64_t xseed = salt ? vh::mix(vh::args().xseed(), salt) : vh::args().xseed();
     uint64_t N = (uint64_t)vh::args().geti("inputs", g_thorough ? 16000 : 1400);
     int64_t only = vh::args().geti("only", -1);
     std::string dir = vh::args().scratch.empty() ? std::string("/tmp") : vh::args().scratch;
@@ -1409,8 +1421,8 @@ int main(int argc, char** argv) {
             continue;
         }
         if (flagged) {
-            // the explicit oracle had already reported this input; the sanitizer agrees
-            g_nc[CT_flagged_oob_confirmed_by_sanitizer]->add();
+            // the explicit oracle had already reported this input; the sanitizer agrees (or, exit code 77, saw nothing)
+            g_nc[WIFEXITED(status) && WEXITSTATUS(status) == 77 ? CT_flagged_oob_not_seen_by_sanitizer : CT_flagged_oob_confirmed_by_sanitizer]->add();
             continue;
         }
         if (stage == "deserialize" && kind == "array<message>-overrun") shm->array_msg_overrun_deaths++;
